@@ -195,20 +195,56 @@ func c05beh(args []string) error {
 			continue
 		}
 		for _, o := range beh.Ops {
+			if o.Op == "encshort" || o.Op == "decshort" {
+				// half a block as source: refused one way or another (a panic is recovered, as an application might)
+				func() {
+					defer func() { recover() }()
+					short, dst := c05At(vecCtr, c05Val([]interface{}{"lcg", float64(1)}))[:8], c05At(vecCtr+1, nil)
+					if o.Op == "encshort" {
+						blk.Encrypt(dst, short)
+					} else {
+						blk.Decrypt(dst, short)
+					}
+				}()
+				ev.emit(map[string]interface{}{"ev": "short", "op": o.Op})
+				continue
+			}
 			vecCtr++
 			src := c05At(vecCtr/3, c05Val([]interface{}{"lcg", float64(o.B)}))
 			orig := append([]byte(nil), src...)
-			dst := c05At(vecCtr, nil)
+			// every third destination is longer than a block (cipher.Block allows it: only the first 16 bytes are written)
+			tail := 0
+			if vecCtr%3 == 0 && !o.Alias {
+				tail = 16 + vecCtr%5
+			}
+			dstBuf := make([]byte, 8+16+tail)
+			for i := range dstBuf {
+				dstBuf[i] = 0xC3
+			}
+			dst := dstBuf[vecCtr%8 : vecCtr%8+16+tail]
 			if o.Alias {
 				dst = src
 			}
-			if o.Op == "enc" {
-				blk.Encrypt(dst, src)
-			} else {
-				blk.Decrypt(dst, src)
+			pan := recoverStr(func() {
+				if o.Op == "enc" {
+					blk.Encrypt(dst, src)
+				} else {
+					blk.Decrypt(dst, src)
+				}
+			})
+			if pan != "" {
+				// a legal call must not panic: an event the specification has no action for
+				ev.emit(map[string]interface{}{"ev": "panic", "op": o.Op, "b": o.B, "alias": o.Alias, "dst_len": len(dst), "what": pan})
+				break
 			}
-			ev.emit(map[string]interface{}{"ev": "call", "op": o.Op, "b": o.B, "alias": o.Alias, "out": ints(dst),
-				"src_intact": string(src) == string(orig)})
+			tailIntact := true
+			for _, v := range dst[16:] {
+				if v != 0xC3 {
+					tailIntact = false
+				}
+			}
+			ev.emit(map[string]interface{}{"ev": "call", "op": o.Op, "b": o.B, "alias": o.Alias, "out": ints(dst[:16]),
+				"src_intact": string(src) == string(orig), "tail_intact": tailIntact})
 		}
 	}
 	return sc.Err()
